@@ -297,10 +297,11 @@ impl Gen {
                 } else if x < 20 {
                     ItOp::SizeHint
                 } else if x < 30 {
-                    let k = match r.below(4) {
-                        0 => 0,
-                        1 => 1,
-                        2 => r.usize(4),
+                    let k = match r.below(16) {
+                        0..=3 => 0,
+                        4..=7 => 1,
+                        8..=11 => r.usize(4),
+                        12 => usize::MAX,
                         _ => r.usize(n + 2),
                     };
                     if r.below(100) < back_w {
@@ -377,6 +378,28 @@ impl Gen {
     pub fn step(&mut self, m: &Model, kind: Kind, cfg: &RunCfg) -> Step {
         let fam = ALL_FAM[self.rng.weighted(&cfg.weights)];
         self.step_of(fam, m, kind, cfg)
+    }
+
+    /// A step aimed at dereferencing damaged index tables: item-addressed updates to the extremes,
+    /// removals, extractions at both ends, insertions of new extremes.
+    pub fn amplify_step(&mut self, m: &Model, kind: Kind, cfg: &RunCfg) -> Step {
+        let k = self.key(m, cfg, 95);
+        let cur = m.prio(k);
+        let hi = m.max().map_or(1, |x| x.saturating_add(1));
+        let lo = m.min().map_or(-1, |x| x.saturating_sub(1));
+        let pl = self.fresh_payload();
+        let e = if self.rng.chance(1, 2) { End::Min } else { End::Max };
+        let _ = kind;
+        match self.rng.below(12) {
+            0 | 1 => Step::Change { k, p: lo, b: true, pl },
+            2 | 3 => Step::Change { k, p: hi, b: true, pl },
+            4 => Step::Change { k, p: cur.unwrap_or(0), b: false, pl },
+            5 | 6 => Step::Remove { k, b: true, pl },
+            7 | 8 => Step::Pop { e },
+            9 => Step::Push { k: self.rng.below(cfg.universe as u64 + 1) as u32, p: if self.rng.chance(1, 2) { hi } else { lo }, pl },
+            10 => Step::PushDec { k, p: lo, pl },
+            _ => Step::PushInc { k, p: hi, pl },
+        }
     }
 
     pub fn step_of(&mut self, fam: Fam, m: &Model, kind: Kind, cfg: &RunCfg) -> Step {
@@ -510,6 +533,8 @@ pub struct HistOpts {
     pub trace: bool,
     pub huge_hints: bool,
     pub alloc_faults: bool,
+    /// hand a run whose index tables were seen inconsistent to an amplification child
+    pub amplify: bool,
 }
 
 #[derive(Clone, Debug)]
@@ -536,6 +561,8 @@ pub struct RunResult {
 pub enum StepSrc {
     Gen(Gen),
     List(Vec<Step>),
+    /// replay the list, then `extra` amplification steps (used by the amplification child)
+    ListThenAmplify(Vec<Step>, Gen, usize),
 }
 
 pub fn cfg_digest(cfg: &RunCfg) -> u64 {
@@ -581,15 +608,30 @@ pub fn run_hist(cfg: &RunCfg, mut src: StepSrc, opts: &HistOpts) -> RunResult {
             return res;
         }
     };
-    let total = match &src {
+    let mut total = match &src {
         StepSrc::Gen(_) => cfg.len,
         StepSrc::List(l) => l.len(),
+        StepSrc::ListThenAmplify(l, _, extra) => l.len() + extra,
     };
     let mut seen_big = false;
-    for i in 0..total {
+    // amplification: once the index tables have been seen inconsistent (C04's own oracle; for any
+    // other property that is only a hint), the run is handed to a child process which replays it
+    // and then spends 40 extra steps on the operations most likely to turn the damage into
+    // behaviour: updates of stored items to both extremes, removals, extractions, new extremes.
+    // They are ordinary steps with the ordinary oracles; the child exists because dereferencing
+    // damaged tables may abort the process, which is not this property's business.
+    let mut i = 0usize;
+    while i < total {
         let st = match &mut src {
             StepSrc::Gen(g) => g.step(&m, q.kind(), cfg),
             StepSrc::List(l) => l[i].clone(),
+            StepSrc::ListThenAmplify(l, g, _) => {
+                if i < l.len() {
+                    l[i].clone()
+                } else {
+                    g.amplify_step(&m, q.kind(), cfg)
+                }
+            }
         };
         if crate::orch::track_level() >= 2 {
             let mut upto = res.steps.clone();
@@ -637,15 +679,38 @@ pub fn run_hist(cfg: &RunCfg, mut src: StepSrc, opts: &HistOpts) -> RunResult {
                 break;
             }
             res.foreign_nonfatal += cx.fails.len() as u64;
+            if opts.amplify && opts.focus & C04 == 0 && cx.fails.iter().any(|f| f.class.starts_with("tables")) {
+                if let StepSrc::Gen(g) = &mut src {
+                    // continue in a child process: dereferencing damaged tables may abort
+                    *res.probes.entry("amplification_started").or_insert(0) += 1;
+                    let seed = g.rng.next();
+                    match amplify_in_child(cfg, &res.steps, seed, opts) {
+                        Ok(Some((step, fail, steps))) => {
+                            *res.probes.entry("amplification_found_behavioural_failure").or_insert(0) += 1;
+                            res.steps = steps;
+                            res.end = RunEnd::Violation { step, fail };
+                        }
+                        Ok(None) => {}
+                        Err(why) => {
+                            *res.probes.entry("amplification_child_died_or_diverged").or_insert(0) += 1;
+                            res.end = RunEnd::Abandoned { step: i, why };
+                        }
+                    }
+                    break;
+                }
+            }
         }
         let _ = fam;
+        i += 1;
     }
     res.ticks = ticks();
     res.nontrivial = seen_big && key_fams(opts.focus).iter().any(|f| res.fam_mask & (1u64 << (*f as u64)) != 0);
     // end of run: drop everything, then the ledger must balance
     let expected_leak = cx.expected_leak;
     let saw_dc = cx.saw_drain_or_clear;
-    res.probes = std::mem::take(&mut cx.probes);
+    for (k, v) in std::mem::take(&mut cx.probes) {
+        *res.probes.entry(k).or_insert(0) += v;
+    }
     res.sigs = std::mem::take(&mut cx.sigs);
     let dr = guarded(move || {
         drop(q);
@@ -909,4 +974,79 @@ pub fn simplify_step(st: &Step) -> Vec<Step> {
         _ => {}
     }
     o
+}
+
+
+// ------------------------------------------------------------------------------------------
+// amplification in a child process
+
+#[derive(serde::Serialize, serde::Deserialize)]
+pub struct AmpRequest {
+    pub focus: u32,
+    pub cfg: RunCfg,
+    pub steps: Vec<Step>,
+    pub seed: u64,
+    pub huge_hints: bool,
+    pub alloc_faults: bool,
+}
+
+#[derive(serde::Serialize, serde::Deserialize)]
+pub struct AmpReply {
+    pub violation: Option<(usize, u32, String, String)>,
+    pub abandoned: Option<String>,
+    pub steps: Vec<Step>,
+}
+
+fn leak_class(c: &str) -> &'static str {
+    // oracle class names are &'static str in the parent; map the child's strings back
+    Box::leak(c.to_string().into_boxed_str())
+}
+
+/// Ok(Some(..)) = a failure of the focus property was found; Ok(None) = nothing; Err = the child
+/// died or the run diverged for another property.
+pub fn amplify_in_child(cfg: &RunCfg, steps: &[Step], seed: u64, opts: &HistOpts) -> Result<Option<(usize, Fail, Vec<Step>)>, String> {
+    let dir = crate::orch::scratch_dir();
+    let path = dir.join(format!("amp-{}.json", seed));
+    let req = AmpRequest { focus: opts.focus, cfg: cfg.clone(), steps: steps.to_vec(), seed, huge_hints: opts.huge_hints, alloc_faults: opts.alloc_faults };
+    std::fs::write(&path, serde_json::to_string(&req).unwrap()).map_err(|e| e.to_string())?;
+    let out = std::process::Command::new(std::env::current_exe().map_err(|e| e.to_string())?)
+        .arg("amplify")
+        .arg(&path)
+        .env_remove("RUST_BACKTRACE")
+        .stdin(std::process::Stdio::null())
+        .stderr(std::process::Stdio::null())
+        .output()
+        .map_err(|e| e.to_string())?;
+    let _ = std::fs::remove_file(&path);
+    let _ = std::fs::remove_dir(&dir);
+    if !out.status.success() {
+        return Err(format!("amplification child died ({:?}): damaged index tables were dereferenced", out.status));
+    }
+    let text = String::from_utf8_lossy(&out.stdout);
+    let line = text.lines().find_map(|l| l.strip_prefix("AMP ")).ok_or("no reply from the amplification child")?;
+    let rep: AmpReply = serde_json::from_str(line).map_err(|e| e.to_string())?;
+    if let Some((step, props, class, msg)) = rep.violation {
+        return Ok(Some((step, Fail { props, class: leak_class(&class), msg }, rep.steps)));
+    }
+    if let Some(why) = rep.abandoned {
+        return Err(why);
+    }
+    Ok(None)
+}
+
+pub fn amplify_main(path: &str) -> i32 {
+    let req: AmpRequest = match std::fs::read_to_string(path).ok().and_then(|s| serde_json::from_str(&s).ok()) {
+        Some(r) => r,
+        None => return 2,
+    };
+    let opts = HistOpts { focus: req.focus, snapshot: true, trace: false, huge_hints: req.huge_hints, alloc_faults: req.alloc_faults, amplify: false };
+    let r = run_hist(&req.cfg, StepSrc::ListThenAmplify(req.steps, Gen::new(Rng::new(req.seed)), 40), &opts);
+    let rep = match r.end {
+        RunEnd::Violation { step, fail } if fail.props & req.focus != 0 => AmpReply { violation: Some((step, fail.props, fail.class.to_string(), fail.msg)), abandoned: None, steps: r.steps[..=step.min(r.steps.len().saturating_sub(1))].to_vec() },
+        RunEnd::Violation { fail, .. } => AmpReply { violation: None, abandoned: Some(format!("[{}] {}", fail.class, fail.msg)), steps: Vec::new() },
+        RunEnd::Abandoned { why, .. } => AmpReply { violation: None, abandoned: Some(why), steps: Vec::new() },
+        RunEnd::Clean => AmpReply { violation: None, abandoned: None, steps: Vec::new() },
+    };
+    println!("AMP {}", serde_json::to_string(&rep).unwrap());
+    0
 }
